@@ -340,6 +340,29 @@ func c13Check(env *h.Env, c *c13Case) error {
 	if errs.Len() > 0 {
 		return fmt.Errorf("Copy(src=%q dst=%q what=%s follow=%v chown=%v oct=%v sym=%q utime=%v): %v", src, dst, c.What, c.Follow, c.Chown, octStr(c.OctMode), c.SymMode, c.Utime != nil, errs.Err())
 	}
+	// the destination root stands for the copied directory itself: it existed, so
+	// it keeps its own mode and owner, but it takes the directory's timestamp
+	if c.DstKind == "root" {
+		sp := effective
+		sfi, err := os.Lstat(filepath.Join(srcRoot, filepath.FromSlash(sp)))
+		if err != nil {
+			return h.Infra(err)
+		}
+		if sfi.IsDir() {
+			dfi, err := os.Lstat(dstRoot)
+			if err != nil {
+				return h.Infra(err)
+			}
+			wantT := sfi.ModTime()
+			if c.Utime != nil {
+				wantT = time.Unix(0, *c.Utime)
+			}
+			env.Class("existing-destination-root-timestamp")
+			if got := dfi.ModTime(); !got.Equal(wantT) {
+				return fmt.Errorf("Copy(src=%q dst=%q what=%s utime=%v): the destination root has mtime %v, the copied directory %v", src, dst, c.What, c.Utime != nil, got.UTC(), wantT.UTC())
+			}
+		}
+	}
 	// directories the call had to create above the target
 	if c.DstKind == "nested" {
 		for _, s := range scaffold {
